@@ -719,6 +719,14 @@ pixman_image_composite32 (pixman_op_t      op,
      */
     info.op = optimize_operator (op, info.src_flags, info.mask_flags, info.dest_flags);
 
+    /* DST leaves the destination as it is under every implementation: it
+     * is not looked up, so that it cannot end up in a path that fetches
+     * the destination and stores it back (which changes an indexed
+     * destination) when the no-op routine is disabled.
+     */
+    if (info.op == PIXMAN_OP_DST)
+	goto out;
+
     _pixman_implementation_lookup_composite (
 	get_implementation (), info.op,
 	src_format, info.src_flags,
